@@ -841,6 +841,10 @@ impl Session {
         self.post_recv(rx_header)
     }
 
+    pub fn verif_is_expired(&self) -> bool {
+        self.expired
+    }
+
     pub fn verif_set_session_mode(&mut self, mode: SessionMode) {
         self.set_session_mode(mode)
     }
